@@ -90,6 +90,7 @@ type Task struct {
 	waitW  bool // waiting for write access
 	rt     *Runtime
 	Panic  string
+	held   map[*lockState]int // locks this task holds: 1 read, 2 write
 }
 
 // Config of one run.
@@ -125,6 +126,8 @@ type Result struct {
 	Events      int64  // Stamp() calls
 	LockWaits   int    // times a task had to wait for a sim lock held by another task
 	PreSites    []int32 // yield sites at which a preemption fired (the running task was switched out mid-operation)
+	Races       []string // lock discipline: a guarded field was accessed without its lock while another task also accesses it (one of them writing)
+	Touches     int64    // guarded-field accesses checked
 }
 
 // Runtime is the state of one simulated run.
@@ -146,6 +149,16 @@ type Runtime struct {
 	res     Result
 	nextID  int
 	base    int // goroutines alive in the bubble before the run
+	touched map[*lockState][]touchRec
+}
+
+// touchRec: one kind of access to the fields a lock guards (deduplicated per task / mode / locked).
+type touchRec struct {
+	task   int
+	name   string
+	write  bool
+	locked bool
+	site   int32
 }
 
 var active atomic.Pointer[Runtime]
@@ -510,6 +523,7 @@ func (r *Runtime) Loop() *Result {
 	}
 	r.res.SchedHash = h
 	r.res.Steps = r.steps
+	r.res.Races = r.races()
 	for _, t := range r.tasks {
 		if t.Panic != "" {
 			r.res.Panics = append(r.res.Panics, "client "+t.Name+": "+t.Panic)
@@ -623,6 +637,14 @@ func (r *Runtime) acquire(t *Task, l *lockState, write bool) {
 			} else {
 				l.readers++
 			}
+			if t.held == nil {
+				t.held = map[*lockState]int{}
+			}
+			if write {
+				t.held[l] = 2
+			} else {
+				t.held[l] = 1
+			}
 			r.mu.Unlock()
 			return
 		}
@@ -641,13 +663,77 @@ func (r *Runtime) acquire(t *Task, l *lockState, write bool) {
 }
 
 func (r *Runtime) release(l *lockState, write bool) {
+	g := gid()
 	r.mu.Lock()
 	if write {
 		l.writer = false
 	} else {
 		l.readers--
 	}
+	if t := r.byGID[g]; t != nil && t.held != nil {
+		delete(t.held, l)
+	}
 	r.mu.Unlock()
+}
+
+// touch records an access to data guarded by l (see instr -lockset) and whether the calling task holds l in the
+// mode the access needs.
+func (r *Runtime) touch(l *lockState, write bool, site int32) {
+	g := gid()
+	r.mu.Lock()
+	defer r.mu.Unlock()
+	t := r.byGID[g]
+	if t == nil {
+		return
+	}
+	r.res.Touches++
+	h := t.held[l]
+	ok := h == 2 || (!write && h == 1)
+	if r.touched == nil {
+		r.touched = map[*lockState][]touchRec{}
+	}
+	for _, x := range r.touched[l] {
+		if x.task == t.ID && x.write == write && x.locked == ok {
+			return
+		}
+	}
+	r.touched[l] = append(r.touched[l], touchRec{t.ID, t.Name, write, ok, site})
+}
+
+// races evaluates the lock discipline at the end of a run: an access made without the lock is a race when some
+// other task accesses data of the same lock too and at least one of the two writes (the tasks of these runs are
+// ordered by nothing but these locks).
+func (r *Runtime) races() []string {
+	var out []string
+	for _, recs := range r.touched {
+		for _, a := range recs {
+			if a.locked {
+				continue
+			}
+			for _, b := range recs {
+				if b.task != a.task && (a.write || b.write) {
+					out = append(out, fmt.Sprintf("task %s accesses lock-guarded data at site %d (write=%v) without holding the lock while task %s accesses it too (write=%v, holding the lock=%v, site %d)", a.name, a.site, a.write, b.name, b.write, b.locked, b.site))
+					break
+				}
+			}
+		}
+	}
+	sort.Strings(out)
+	return out
+}
+
+// Touch: see instr -lockset.
+func (m *RWMutex) Touch(write bool, site int32) {
+	if r := active.Load(); r != nil {
+		r.touch(&m.st, write, site)
+	}
+}
+
+// Touch: see instr -lockset.
+func (m *Mutex) Touch(write bool, site int32) {
+	if r := active.Load(); r != nil {
+		r.touch(&m.st, write, site)
+	}
 }
 
 // Mutex replaces sync.Mutex in instrumented code.
